@@ -128,6 +128,7 @@ class _Env:
         self.loop: Optional[VirtualTimeLoop] = None
         self.nbuilt = 0
         self.box: List[Any] = []
+        self.abox: List[Any] = []
         self.protos: Dict[str, Any] = {}
 
     def close(self) -> None:
@@ -202,7 +203,8 @@ def run_recipe(ctx: Ctx, recipe: Dict[str, Any], cid: str) -> Case:
                 data, bidx, names = _datagram(env, spec, lines, tags)
                 env.clock += 1000
                 bref = f" b={bidx}" if bidx is not None else ""
-                lines.append(f"{name} {r} {tb(data)} {tok_addr(src)} {tok_addr(local) if local else 'N'} {env.clock}{bref}")
+                mtok = f" m={mode}" if name == "recv" else ""
+                lines.append(f"{name} {r} {tb(data)} {tok_addr(src)} {tok_addr(local) if local else 'N'} {env.clock}{bref}{mtok}")
                 got = None
                 res = None
                 try:
@@ -211,32 +213,52 @@ def run_recipe(ctx: Ctx, recipe: Dict[str, Any], cid: str) -> Case:
                     else:
                         # ONE protocol object per delivery flavour lives for the whole case (as it does for the life of a
                         # socket): state a change might keep in the protocol instance travels from datagram to datagram
-                        box = env.box
-                        del box[:]
+                        # The constructor configuration is a dimension: only on_data ("sync"), only async_on_data ("async"),
+                        # both, neither.  EVERY configured sink must receive the decoded (start line, headers) exactly once.
+                        sbox, abox = env.box, env.abox
+                        del sbox[:]
+                        del abox[:]
                         if mode not in env.protos:
-                            if mode == "async":
+                            kw: Dict[str, Any] = {}
+                            if mode in ("async", "both"):
                                 if env.loop is None:
                                     env.loop = VirtualTimeLoop()
                                     asyncio.set_event_loop(env.loop)
 
-                                async def acb(rl, h, _b=box):
+                                async def acb(rl, h, _b=abox):
                                     _b.append((rl, h))
 
-                                env.protos[mode] = ssdp.SsdpProtocol(env.loop, async_on_data=acb)
-                            else:
-                                env.protos[mode] = ssdp.SsdpProtocol(None, on_data=lambda rl, h, _b=box: _b.append((rl, h)))  # type: ignore[arg-type]
+                                kw["async_on_data"] = acb
+                            if mode in ("sync", "both"):
+                                kw["on_data"] = lambda rl, h, _b=sbox: _b.append((rl, h))
+                            env.protos[mode] = ssdp.SsdpProtocol(env.loop, **kw)  # type: ignore[arg-type]
                         proto = env.protos[mode]
                         proto.transport = FakeTransport()  # type: ignore[assignment]
                         proto.local_addr = local
                         proto.datagram_received(data, src)
-                        if mode == "async":
+                        if mode in ("async", "both"):
                             env.loop.run_until_complete(asyncio.sleep(0))
                             env.loop.run_until_complete(asyncio.sleep(0))
-                        if len(box) > 1:
-                            res = f"EXC:callbacks={len(box)}"
-                        got = box[0] if box else None
-                        if got is None and res is None:
+                        want_s, want_a = mode in ("sync", "both"), mode in ("async", "both")
+                        ns, na = len(sbox), len(abox)
+                        delivered = max(ns, na) > 0
+                        if mode == "neither":
+                            res = "nosink"
+                        elif ns > 1 or na > 1 or (not want_s and ns) or (not want_a and na):
+                            res = f"EXC:callbacks=s{ns}a{na}"
+                        elif delivered and ((want_s and ns != 1) or (want_a and na != 1)):
+                            res = f"EXC:sink-missed=s{ns}a{na}"          # one configured callback did not get the message
+                        elif not delivered:
                             res = "drop"
+                        else:
+                            got = sbox[0] if want_s else abox[0]
+                            if mode == "both":
+                                (rl1, h1), (rl2, h2) = sbox[0], abox[0]
+                                # the code hands the SAME mapping object to both callbacks; equal content is what is demanded
+                                tags.add("sinks:same-object" if h1 is h2 else "sinks:independent")
+                                if rl1 != rl2 or observe(h1, META) != observe(h2, META) or list(h1.as_dict().items()) != list(h2.as_dict().items()):
+                                    res = "EXC:sinks-differ"
+                                    got = None
                         tags.add(f"recv:{mode}")
                 except Exception as e:  # noqa: BLE001 - the exception class is the observation
                     res = "EXC:" + exc_token(e)
@@ -494,14 +516,14 @@ def keyset_cases(rng) -> List[List[list]]:
                 d2 = ALPHA[(ALPHA.index(spec) + 1) % 3]
                 ops = [["core", 5, spec, s0], [first, 0, spec, s0, None]]
                 ops += [list(m) for m in mut]
-                ops += [["dec", 1, spec, s0, None], ["recv", 2, spec, port, None, "sync"], ["dec", 3, spec, other, None],
+                ops += [["dec", 1, spec, s0, None], ["recv", 2, spec, port, None, "both"], ["dec", 3, spec, other, None],
                         ["dec", 4, d2, s0, None], ["core", 6, spec, s0]]
                 # a second round: mutate the second result too, decode once more
                 ops += [[m[0], 1] + list(m[2:]) for m in mut] + [["dec", 0, spec, s0, None]]
                 out.append(ops)
     # the same datagram delivered again and again through ONE protocol object (both flavours), other datagrams in between
     for spec in ALPHA:
-        for mode in ("sync", "async"):
+        for mode in ("sync", "async", "both", "neither"):
             s0 = list(ALPHA_SRC[rng.randrange(2)])
             d2 = ALPHA[(ALPHA.index(spec) + 1) % 3]
             out.append([["recv", 0, spec, s0, None, mode], ["recv", 1, spec, s0, None, mode], ["recv", 2, d2, s0, None, mode],
@@ -526,7 +548,7 @@ def history(rng, depth: int, with_fill: bool) -> List[list]:
         kind = rng.choice(["dec", "dec", "recv"])
         op = [kind, rng.randrange(0, 4), spec, list(src), list(rng.choice(LOCALS) or []) or None]
         if kind == "recv":
-            op.append(rng.choice(["sync", "async"]))
+            op.append(rng.choice(["sync", "async", "both", "both", "neither"]))
         ops.append(op)
         while rng.random() < 0.6:
             ops.append(rand_mut(rng, op[1] if rng.random() < 0.6 else rng.randrange(0, 4)))
@@ -574,7 +596,7 @@ def gen_part(ctx: Ctx, kind: str, n: int, prefix: str) -> List[Case]:
                 k = "dec" if rng.random() < 0.8 else "recv"
                 op = [k, r, spec, list(rng.choice(SOURCES)), list(rng.choice(LOCALS) or []) or None]
                 if k == "recv":
-                    op.append(rng.choice(["sync", "async"]))
+                    op.append(rng.choice(["sync", "async", "both", "both", "neither"]))
                 ops.append(op)
             cases.append(_one(ctx, ops, f"{prefix}{len(cases)}", rng.randrange(1 << 30)))
             if ctx.time_left() < 60:
